@@ -16,10 +16,27 @@ from unittest.mock import patch
 ROOT = "/vfs/"
 
 
+class StampedLog(list):
+    """Raw operation log; remembers the (virtual) time of each append when a clock is attached."""
+
+    def __init__(self) -> None:
+        super().__init__()
+        self.clock = None
+        self.times: list[float | None] = []
+
+    def append(self, item) -> None:
+        super().append(item)
+        self.times.append(self.clock() if self.clock else None)
+
+    def clear(self) -> None:
+        super().clear()
+        self.times.clear()
+
+
 class VFS:
     def __init__(self) -> None:
         self.files: dict[str, bytearray] = {}
-        self.log: list[tuple] = []  # raw operations in order
+        self.log: StampedLog = StampedLog()  # raw operations in order
         self.fail: dict[str, BaseException] = {}  # op name -> exception to raise once ("open","read","write","close")
         self.opened: list[tuple] = []
 
